@@ -6,7 +6,7 @@
    (ensure/cancel/zeroconf/reconnect_soon/drop/reset/close/shutdown); [advance] adds any
    amount of internal timer processing between two control events. *)
 From Coq Require Import List NArith Arith Bool Lia.
-From AHK Require Import Model.Reconnect Proofs.Reconnect.
+From AHK Require Import Model.Reconnect Proofs.Reconnect Proofs.ReconnectTrace.
 Import ListNotations.
 
 (* at most one connector task, in every reachable state and between control events *)
@@ -82,6 +82,16 @@ Theorem all_hosts_offered_without_exclusions : forall hs : list nat,
     filter (fun h => negb (mem_nat h [])) hs = hs.
 Proof. exact filter_not_in_nil. Qed.
 
+(* the candidate list of every connection attempt ever logged is non-empty (a stale exclusion or
+   an address-list change can never leave the connector with nothing to dial) *)
+Theorem attempts_offer_candidates : forall hs sb ds vs cs e t cands d,
+    In (t, EvDial cands d) (trace (run hs sb ds vs cs e)) -> cands <> [].
+Proof.
+  intros hs sb ds vs cs e t cands d Hin.
+  pose proof (run_trace_ok hs sb ds vs cs e) as H. unfold TraceOk in H.
+  rewrite Forall_forall in H. exact (H _ Hin).
+Qed.
+
 (* after shutdown() no further attempt is made, whatever pairing-level events follow *)
 Theorem no_attempt_after_shutdown : forall s cs, reachable s ->
     forallb (fun tc => pairing_level (snd tc)) cs = true ->
@@ -114,3 +124,4 @@ Print Assumptions waiter_timeout_keeps_connector.
 Print Assumptions no_host_excluded_forever.
 Print Assumptions all_hosts_offered_without_exclusions.
 Print Assumptions no_attempt_after_shutdown.
+Print Assumptions attempts_offer_candidates.
